@@ -405,6 +405,10 @@ pub enum C17Case {
     Tool(crate::clifam::AvgTool),
     /// `average_over_bed` of the Python binding: every names mode x every stats form
     Py { file: usize, regions: usize },
+    /// regions of 1 / 2 / 4 million bases (and small ones) on a file with several zoom levels whose
+    /// values do not sum exactly in single precision: the statistics are those of the stored
+    /// values, not of a zoom level's rounded sums
+    LargeRegions { two_pass: bool, compress: bool },
 }
 
 pub struct C17;
@@ -530,7 +534,8 @@ impl Check for C17 {
         let tools = crate::clifam::avg_tool_cases(quick).into_iter().map(C17Case::Tool);
         let pys = (0..2usize).flat_map(|file| (0..4usize).map(move |regions| C17Case::Py { file, regions }));
         let tools = tools.chain(pys);
-        Box::new(singles.chain(multi).chain(tools))
+        let large = [(false, true), (true, false)].into_iter().map(|(two_pass, compress)| C17Case::LargeRegions { two_pass, compress });
+        Box::new(singles.chain(multi).chain(tools).chain(large))
     }
     fn run(&self, case: &C17Case, out: &mut Outcome) {
         let c = match case {
@@ -543,6 +548,53 @@ impl Check for C17 {
             C17Case::Tool(t) => {
                 out.nontrivial = true;
                 crate::clifam::c17_tool(t, out);
+                return;
+            }
+            C17Case::LargeRegions { two_pass, compress } => {
+                out.nontrivial = true;
+                let mut o = Opts::base();
+                o.two_pass = *two_pass;
+                o.compress = *compress;
+                o.zoom = Zoom::AutoDefault;
+                let items: Vec<WItem> = (0..30_000u32).map(|i| WItem { s: 133 * i + 5, e: 133 * i + 5 + 1 + (i % 90), vb: (0.1f32 * (i % 1000) as f32 + 0.013).to_bits() }).collect();
+                let ch = WChrom { name: "lg".into(), len: 4_100_000, items };
+                let c = WigCase { chroms: vec![ch.clone()], extra_sizes: vec![], allow_ooo: false, opts: o };
+                let tags = wig_tags(&c);
+                let Some(bytes) = do_write_wig(&c, out) else { return };
+                let r = guarded(|| {
+                    let mut rd = BigWigRead::open(Cursor::new(bytes.clone())).unwrap();
+                    out.count("zoom_levels_of_the_large_region_file", rd.info().zoom_headers.len() as u64);
+                    for (s, e) in [(0u32, 4_000_000u32), (500_000, 1_500_001), (1_000_000, 2_000_000), (17, 3_999_999), (2_000_000, 4_100_000), (100, 5000), (0, 999_999), (3_000_000, 4_200_000)] {
+                        out.count("regions", 1);
+                        out.count("regions_of_a_million_bases_and_more", (e - s >= 1_000_000) as u64);
+                        // item-based reference (no per-base array)
+                        let mut w = RefStats { size: e - s, bases: 0, sum: 0.0, abs_sum: 0.0, min: vec![], max: vec![] };
+                        let (mut mn, mut mx) = (f64::INFINITY, f64::NEG_INFINITY);
+                        for it in &ch.items {
+                            let (a, b) = (it.s.max(s), it.e.min(e));
+                            if b > a {
+                                let v = it.v() as f64;
+                                w.bases += b - a;
+                                w.sum += (b - a) as f64 * v;
+                                w.abs_sum += (b - a) as f64 * v.abs();
+                                mn = mn.min(v);
+                                mx = mx.max(v);
+                            }
+                        }
+                        if w.bases > 0 {
+                            w.min.push(mn);
+                            w.max.push(mx);
+                        }
+                        let entry = BedEntry { start: s, end: e, rest: format!("big_{}_{}", s, e) };
+                        match stats_for_bed_item("lg", entry, &mut rd) {
+                            Err(err) => out.fail("region_stats_error", &tags, format!("lg [{},{}): {}", s, e, err)),
+                            Ok(g) => cmp_entry(&format!("stats_for_bed_item lg [{},{})", s, e), &g, &w, &tags, out),
+                        }
+                    }
+                });
+                if let Err(p) = r {
+                    out.fail("read_panicked", &tags, p);
+                }
                 return;
             }
         };
